@@ -16,8 +16,16 @@ def spin_detector(main_id, log, out, cpu_quiet=6.0, period=0.25):
     workflow loop (never waiting in the event loop's select) => write outcome "livelock" with the stack and
     exit.  CPU time, not wall time, so that a slow (overloaded) machine cannot trigger it."""
     since, last_size, samples = None, -1, 0
+    t0, parent = time.time(), os.getppid()
+    deadline = float(os.environ.get("VP_RUNNER_DEADLINE") or 900)
     while True:
         time.sleep(period)
+        if time.time() - t0 > deadline or os.getppid() != parent:
+            # never outlive the case: hard deadline, or the harness worker that started us is gone
+            try:
+                os.killpg(os.getpgrp(), 9) if os.getpgrp() == os.getpid() else None
+            finally:
+                os._exit(4)
         fr = sys._current_frames().get(main_id)
         names = []
         while fr is not None:
